@@ -148,7 +148,6 @@ def run():
         else:
             a = r.choice(docs.small_nested())
             b = r.choice(docs.small_nested())
-        a, b = untwin(a), untwin(b)
         opts = r.choice(docs.ALL_OPTS)
         jl, jd = r.choice([(False, False), (True, True), (True, False), (False, True)])
         jobs.append((a, b, opts, jl, jd))
@@ -200,7 +199,6 @@ def run():
                 "options, layout); non-trivial = the documents differ" % n)
     chk.assumptions = ["cells are split lexically (SGR escapes vs characters) by a regular expression; everything else is "
                        "decided by the TLA+ acceptor",
-                       "documents with booleans/floats that have numeric twins are rewritten to strings (ambiguous domain)",
                        "number lexemes are compared raw (both texts come from json.dumps)"]
     return chk.finish()
 
